@@ -85,7 +85,7 @@ let handle (fs : string list) : string =
       let normalize (s : n list) : n list =
         (try List.assoc s table with Not_found -> s) in
       let rg = { nametypes = !nt; nameids = !ni; ids = !idl } in
-      (match apply normalize (b_of sphinx) (b_of supp) (b_of shash) rg !sl !rf with
+      (match apply normalize (b_of sphinx) (b_of supp) (b_of shash) false rg !sl !rf with
        | Raise e -> "!" ^ exn_name e
        | Ok outs ->
            (match outs with [] -> "." | _ ->
@@ -94,7 +94,7 @@ let handle (fs : string list) : string =
                 field_of_ostr o.o_refid; field_of_ostr o.o_fill;
                 (match o.o_warn with [] -> "." | ws ->
                    String.concat ";" (List.map (fun w -> field_of_on w.w_line) ws));
-                s_of_b o.o_msg; s_of_b o.o_pending ]) outs)))
+                s_of_b o.o_msg; s_of_b o.o_pending; field_of_on o.o_pline ]) outs)))
   | _ -> "!badcmd"
 
 let () = main handle
